@@ -383,6 +383,11 @@ def run(ctx: Context, rep) -> None:
                construct=short(eff[0], 60) if eff else "no file effect",
                message="constructing a writer must not create its file")
     rep.floor("C04.lazy-file", n_ctor, 4, "constructors")
+    # every list a session touched is written and reported to the dataset
+    # (a split whose update is not reported keeps stale totals in the
+    # description): same rule as C09.collect's exit part
+    from sa.rules.c09 import check_exit_reports
+    check_exit_reports(ctx, rep, "C04.report")
 
 
 
